@@ -31,6 +31,10 @@ esac
 case " $PROPS " in *" C02 "*)
   /venv/bin/python "$ROOT/harness/translate/py2gallina_c02.py" 2> >(grep -v conda >&2) || echo "setup: translator rejected the source (coq/Gen/TrapGrid1DGen.v is a non-compiling stub)" >&2 ;;
 esac
+# C08 owns coq/Gen/LocalGrid1DGen.v (local 1D grid classes of sparseSpACE/Grid.py; theorems in Props/C08gen.v)
+case " $PROPS " in *" C08 "*)
+  /venv/bin/python "$ROOT/harness/translate/py2gallina_c08.py" 2> >(grep -v conda >&2) || echo "setup: translator rejected the source (coq/Gen/LocalGrid1DGen.v is a non-compiling stub)" >&2 ;;
+esac
 cd "$ROOT/coq"
 find . -name '*.v' | sed 's|^\./||' | sort > .files.new
 if ! cmp -s .files.new .files || [ ! -f Makefile.coq ]; then
